@@ -141,6 +141,10 @@ ArgsDisjoint(st, argseq) ==
 NoDFArgs(st, args) == \A a \in args : ~(Tracked(st, a) /\ TrackedUnder(st, a) # {})
 (* a tracked path that is a directory on disk (with possibly untracked files in it) may be refused by rm *)
 NoneIsDirOnDisk(st, paths) == paths \cap SeqToSet(st.dirs) = {}
+(* writing these paths into the working tree would have to replace a directory by a file or a file by a directory, *)
+(* which cannot be done without touching what is there: such a command may be refused                              *)
+WtConflict(st, paths) ==
+    \E p \in paths : p \in SeqToSet(st.dirs) \/ \E q \in DOMAIN st.wt : Under(q, p)
 ArgsAllTracked(st, args) == \A a \in args : SelTracked(st, a) # {}
 RestrictWt(wt, keep) == [p \in (DOMAIN wt) \cap keep |-> wt[p]]
 
@@ -381,8 +385,8 @@ StageClausesW(s, e, t, connS, connT) ==
             /\ DOMAIN T.wt = DOMAIN S.wt \cup R
             /\ \A p \in DOMAIN S.wt \ R : T.wt[p] = S.wt[p]
             /\ T.idx = S.idx),
-    Cl("C09_RestoreFound", {"C09", "C06"}, isRestore /\ Len(e.paths) > 0 /\ ArgsAllTracked(S, ArgSet(e)),
-        isRestore /\ Len(e.paths) > 0 /\ ArgsAllTracked(S, ArgSet(e)) => Ok(e)),
+    Cl("C09_RestoreFound", {"C09", "C06"}, isRestore /\ Len(e.paths) > 0 /\ ArgsAllTracked(S, ArgSet(e)) /\ ~WtConflict(S, SelAll(S, ArgSet(e))),
+        isRestore /\ Len(e.paths) > 0 /\ ArgsAllTracked(S, ArgSet(e)) /\ ~WtConflict(S, SelAll(S, ArgSet(e))) => Ok(e)),
     Cl("C09_Unknown", {"C09", "C06"}, isRestore /\ Len(e.paths) > 0 /\ SelTracked(S, e.paths[1]) = {},
         isRestore /\ Len(e.paths) > 0 /\ SelTracked(S, e.paths[1]) = {} => Refused(e) /\ Unchanged(s, t)),
     Cl("C09_AnyUnknown", {"C09"}, isRestore /\ \E a \in ArgSet(e) : SelTracked(S, a) = {},
@@ -416,8 +420,8 @@ ResetClausesW(s, e, t, connS, connT) ==
     <<
     Cl("C08_Refuse", {"C08", "C03", "C11"}, isR /\ (~PosValid(s, e) \/ e.mode \notin ResetModes),
         isR /\ (~PosValid(s, e) \/ e.mode \notin ResetModes) => Refused(e) /\ Unchanged(s, t)),
-    Cl("C08_Accept", {"C08", "C11"}, isR /\ PosValid(s, e) /\ e.mode \in ResetModes /\ HeadHasCommit(S),
-        isR /\ PosValid(s, e) /\ e.mode \in ResetModes /\ HeadHasCommit(S) => Ok(e)),
+    Cl("C08_Accept", {"C08", "C11"}, isR /\ PosValid(s, e) /\ e.mode \in ResetModes /\ HeadHasCommit(S) /\ (e.mode = "hard" => ~WtConflict(S, PathsOf(snap))),
+        isR /\ PosValid(s, e) /\ e.mode \in ResetModes /\ HeadHasCommit(S) /\ (e.mode = "hard" => ~WtConflict(S, PathsOf(snap))) => Ok(e)),
     Cl("C08_Target", {"C08", "C11"}, okR,
         okR => /\ T.head = S.head
                /\ Branches(T) = Branches(S)
